@@ -179,6 +179,16 @@ def pair_expectations(sensors, data):
             continue
         code = data[base]
         out[sn.id_] = labels.get(code) if code is not None else labels.get(0)
+    # 4-byte bitmaps: the label lists the set bits of the 32-bit code reported IN THE SAME RESULT by the Long sensor that
+    # is defined over the same registers (errors / error_codes, diagnose_result_label / diagnose_result)
+    for sn in sensors:
+        if type(sn).__name__ != "EnumBitmap4" or sn.id_ not in data:
+            continue
+        labels = labels_of(sn)
+        base = next((x for x in sensors if type(x).__name__ == "Long" and x.offset == sn.offset), None)
+        if labels is None or base is None or base.id_ not in data or not isinstance(data[base.id_], int):
+            continue
+        out[sn.id_] = ("bitmap", base.id_, R.decode_bitmap(data[base.id_] & 0xFFFFFFFF, labels))
     return out
 
 
